@@ -143,7 +143,7 @@ def r19_4_5(ctx) -> None:
     okb = len(rets) == 1
     if okb:
         t = rets[0]
-        okb = t in (f"int.from_bytes({D}, 'big')", f"int.from_bytes({D}, byteorder='big')") or _is_int_of_hex(t, D)
+        okb = t in tuple(f"int.from_bytes({D}, {bo}'big'{sg})" for bo in ("", "byteorder=") for sg in ("", ", signed=False")) or _is_int_of_hex(t, D)
     ctx.check(okb, "R19.4", b2i, b2i.node, b2i.short, "base64_to_int is not the unsigned big-endian decoder of the strict base64url decoding", "int(hex of urlsafe_b64decode(s), 16)",
               construct="base64_to_int")
     # R19.5
@@ -247,6 +247,12 @@ def r19_8(ctx) -> None:
         if fn.name not in ("import_private_key", "import_public_key") or fn.cls is None:
             continue
         op = fn.pos_params[-1]
+        # the two locals that receive the recovered prime factors, whatever they are called: `P, Q = rsa_recover_prime_factors(...)`
+        PN, QN = "p", "q"
+        for st in fn_nodes(fn):
+            if isinstance(st, ast.Assign) and len(st.targets) == 1 and isinstance(st.targets[0], ast.Tuple) and len(st.targets[0].elts) == 2 \
+                    and all(isinstance(x, ast.Name) for x in st.targets[0].elts) and isinstance(st.value, ast.Call) and norm(st.value.func).endswith("rsa_recover_prime_factors"):
+                PN, QN = st.targets[0].elts[0].id, st.targets[0].elts[1].id
         for node in fn_nodes(fn):
             if not (isinstance(node, ast.Call) and isinstance(node.func, ast.Name) and node.func.id in NUMBER_SLOTS):
                 continue
@@ -261,7 +267,7 @@ def r19_8(ctx) -> None:
                 if not direct and (node.func.id, slot) not in MANDATORY_SLOTS:
                     # computed from other numbers (CRT parameters recovered from n, e, d): pyca's helpers with their arguments in the documented order
                     dd = f"base64_to_int({op}['d'])"
-                    comp = {"dmp1": f"rsa_crt_dmp1({dd}, p)", "dmq1": f"rsa_crt_dmq1({dd}, q)", "iqmp": "rsa_crt_iqmp(p, q)", "p": "p", "q": "q"}
+                    comp = {"dmp1": f"rsa_crt_dmp1({dd}, {PN})", "dmq1": f"rsa_crt_dmq1({dd}, {QN})", "iqmp": f"rsa_crt_iqmp({PN}, {QN})", "p": PN, "q": QN}
                     n += 1
                     ctx.check(texts == [comp.get(slot, "?")], "R19.8", fn, node, f"{fn.short} :: {node.func.id}.{slot} (computed)", f"the recovered CRT value for {slot} is {texts}, "
                               f"not {comp.get(slot)}", comp.get(slot, ""), construct=f"computed {node.func.id}.{slot} in {fn.short}")
